@@ -163,6 +163,18 @@ CHECKS = {
                   'ignore_ungraphlike_errors the implementation skips errors that carry a suggested decomposition; that reading is '
                   'taken as the definition.',
         design='§4 C17'),
+    'C19': dict(
+        technique='generated circuits checked as data by the Coq-extracted specification (determinism = no coin dependence of every '
+                  'detector/observable form) + parser round trip, closed-form counts, graphlike distance, parameter rejection',
+        text='On every run each circuit of the (code, task, distance, rounds, noise subset) grid is regenerated by the working tree\'s '
+             '`stim gen`, parsed and executed by the specification Spec.srun: every DETECTOR and OBSERVABLE_INCLUDE form must have zero '
+             'coin part (proved to mean the same value under every coin assignment); the text must equal the canonical print of its own '
+             'parse; detector/observable/measurement counts must match the closed forms in (d, rounds); for repetition and surface '
+             'memory tasks with all four noise parameters on, the shortest graphlike undetectable logical error must have exactly d '
+             'errors; invalid parameter combinations must be rejected.',
+        note=TB + ' The generators are not transcribed into Gallina: the claim is per grid point (exhaustive over the stated grid), not '
+                  'for all distances and round counts; the distance uses the implementation\'s graphlike search (validated by C17).',
+        design='§4 C19'),
 }
 
 PENDING = 'check not yet built in this round (see DESIGN.md §7 phasing); the Coq model for it is planned, not claimed'
